@@ -166,6 +166,18 @@ def run(rep: common.Report, tier: str, seed: int, replay=None) -> int:
                                 lambda out: solve(dbad, out), td, f"a{n}"); n += 1
             except Exception:  # noqa: BLE001
                 pass
+            # 5b. history form: a device that has been solved successfully; then one of its terminals is moved in place far off
+            # the film (no re-meshing) - the next solve of the same object must be rejected like a fresh one
+            dh = dev.copy(with_mesh=True)
+            balanced = {nm: 0.0 for nm in names}
+            balanced[names[0]], balanced[names[1]] = 1.0, -1.0
+            try:
+                solve(dh, os.path.join(td, f"hist_ok_{di}.h5"), terminal_currents=balanced)
+                dh.terminals[0].translate(dx=100.0, dy=37.0, inplace=True)
+                expect_rejected(rep, "terminal touching no boundary", f"dev{di}: terminal moved off the film in place after a successful solve",
+                                lambda out: solve(dh, out, terminal_currents=balanced), td, f"a{n}"); n += 1
+            except Exception as e:  # noqa: BLE001
+                rep.violation(f"a well-posed problem was rejected: {type(e).__name__}: {e}"[:200], {"device": di, "form": "history"})
         # 8. invalid polygons and device definitions (rejected at construction: nothing can be written)
         def bowtie():
             tdgl.Polygon("p", points=np.array([[0, 0], [1, 1], [1, 0], [0, 1]]))
